@@ -129,6 +129,12 @@ def check_domain(sess: Session, module: str, qual: str, stops_at, make_args: Cal
     ns.update({"__Stop": _Stop, "isinstance": isinstance, "len": len, "abs": abs, "max": max, "min": min})
     ns.update(extra_ns or {})
     exec(compile(ast.Module(body=[cut], type_ignores=[]), f"<{module}:{qual}[argument validation]>", "exec"), ns)
+    # helper functions of the same module that the validation calls (a chain of checks extracted into a helper) come from the tree too
+    import builtins as _b
+    top = {n.name for n in core.module_ast(module).body if isinstance(n, ast.FunctionDef)}
+    for n in ast.walk(cut):
+        if isinstance(n, ast.Name) and isinstance(n.ctx, ast.Load) and n.id in top and n.id not in ns and not hasattr(_b, n.id):
+            O.load(module, [n.id], ns)
     f = ns[cut.name]
     box: Dict[str, Any] = {}
 
